@@ -17,6 +17,14 @@ def ref_species(I, name, comp, Tref):
     return o
 
 
+def get_first(I, r):
+    """first reference species of a References object (through its public sequence protocol)"""
+    try:
+        return I.call_method(r, '__getitem__', [C(0)], {})
+    except Unsupported:
+        return None
+
+
 def check(run, repo):
     run.explanation = (
         'References is interpreted abstractly. get_CvoR/CpoR/UoRT/SoR are 0 and GoRT = HoRT - SoR; get_HoRT with '
@@ -173,6 +181,29 @@ def check(run, repo):
         ok = 'M' in sols and len(sols['M']) == len(species) + 1 and r.attrs.get('offset') is not old_off
         run.check(ok, 'PATH.refit', 'References.fit_HoRT_offset', label + ' append+refit',
                   'refitting after appending a reference does not rebuild the system with the new species', owner.module, fn)
+        # ... and after removing references again (pop of the last, remove by name): the system shrinks accordingly and
+        # the offsets of the remaining fit are the ones applied
+        for how in ('pop', 'remove'):
+            if repo.find_method(ci, how, missing_ok=True) is None:
+                continue
+            before = len(sols.get('M', []))
+            sols.clear()
+            if how == 'pop':
+                I.call_method(r, 'pop', [], {})
+            else:
+                first = get_first(I, r)
+                I.call_method(r, 'remove', [], {'obj': first} if first is not None else {})
+            res_ = I.call_method(r, 'fit_HoRT_offset', [], {})
+            ok = not isinstance(res_, Raised) and 'M' in sols and len(sols['M']) == before - 1
+            if ok and 'x' in sols:
+                names_ = I.call_method(r, 'get_descriptors', [], {})
+                off_ = r.attrs.get('offset')
+                ok = isinstance(off_, DictV) and isinstance(names_, ListV) and \
+                    all(same(off_.d.get(I.plain(nm_)), xv_) for nm_, xv_ in zip(names_.items, sols['x'].items))
+            run.check(ok, 'PATH.refit', 'References.fit_HoRT_offset', label + ' %s+refit' % how,
+                      'refitting after %s does not rebuild the system without the removed species (rows %s -> %s) or '
+                      'does not store the new solution as offsets' % (how, before, len(sols.get('M', []))),
+                      owner.module, fn)
     run.floor('fit instances', n_fit, 18)
     run.extra['fit_instances'] = n_fit
 
